@@ -1,11 +1,50 @@
 //@ tu: libxcm/tp/tcp/tconnect.c
 //@ enforce-rec: track_connect_next
 //@ replace: tcp_opts_effectuate tp_ip_to_sockaddr xpoll_fd_reg_add timer_mgr_schedule track_abort_connect
-//@ pre-unwind: track_connect_next.2:34
+//@ pre-unwind: track_connect_next.2:$U
 //@ timeout: 600
 //@ flags: --object-bits 10
+//@ defs: -DXV_TCN_I0=$I0
 //@ props: C13 C08 C04
-//@ expect: postcondition>=10 canary=6
+//@ expect: postcondition>=11 canary=$C
+/* track_connect_next is recursive and its address loop can only be closed by unwinding (a loop contract inside a recursive
+ * function crashes goto-instrument 6.11).  One variant per start index (track->ip_idx on entry = -1 .. 31 = every value the
+ * precondition admits for a list of at most XCM_DNS_MAX_RESULT_SIZE = 32 addresses); see the XV_TCN_I0 comment in
+ * contracts/dnstc.h for why (O(n^2) -> O(n)) and why the union of the variants is the general contract.  Unwinding bound $U =
+ * (addresses left) + 2; complete by the unwinding assertion. */
+//@ variant: im1 I0=-1 U=34 C=6
+//@ variant: i00 I0=0 U=33 C=2
+//@ variant: i01 I0=1 U=32 C=2
+//@ variant: i02 I0=2 U=31 C=2
+//@ variant: i03 I0=3 U=30 C=2
+//@ variant: i04 I0=4 U=29 C=2
+//@ variant: i05 I0=5 U=28 C=2
+//@ variant: i06 I0=6 U=27 C=2
+//@ variant: i07 I0=7 U=26 C=2
+//@ variant: i08 I0=8 U=25 C=2
+//@ variant: i09 I0=9 U=24 C=2
+//@ variant: i10 I0=10 U=23 C=2
+//@ variant: i11 I0=11 U=22 C=2
+//@ variant: i12 I0=12 U=21 C=2
+//@ variant: i13 I0=13 U=20 C=2
+//@ variant: i14 I0=14 U=19 C=2
+//@ variant: i15 I0=15 U=18 C=2
+//@ variant: i16 I0=16 U=17 C=2
+//@ variant: i17 I0=17 U=16 C=2
+//@ variant: i18 I0=18 U=15 C=2
+//@ variant: i19 I0=19 U=14 C=2
+//@ variant: i20 I0=20 U=13 C=2
+//@ variant: i21 I0=21 U=12 C=2
+//@ variant: i22 I0=22 U=11 C=2
+//@ variant: i23 I0=23 U=10 C=2
+//@ variant: i24 I0=24 U=9 C=2
+//@ variant: i25 I0=25 U=8 C=2
+//@ variant: i26 I0=26 U=7 C=2
+//@ variant: i27 I0=27 U=6 C=2
+//@ variant: i28 I0=28 U=5 C=2
+//@ variant: i29 I0=29 U=4 C=2
+//@ variant: i30 I0=30 U=3 C=2
+//@ variant: i31 I0=31 U=2 C=1
 #include "_unit_tc.h"
 void harness(void)
 {
@@ -13,13 +52,17 @@ void harness(void)
     xv_tc_havoc();
     xv_tcn_top = 1;
     struct track *track;
-    unsigned f0 = xv_fail_n, c0 = xv_conn_n;
+    unsigned f0 = xv_fail_n, c0 = xv_conn_n, e0 = xv_eff_n, b0 = xv_kc.bind_calls, d0 = xv_disc_n;
     track_connect_next(track);
-    struct track *t = xv_trk;
-    if (t->state == track_state_connected && xv_conn_n == c0 + 1) XV_CANARY("first candidate connects at once");
-    if (t->state == track_state_connecting && xv_fail_n == f0 + 2) XV_CANARY("in progress after two failed attempts");
-    if (t->state == track_state_bad && xv_fail_n == f0 && t->badness_reason == ENOENT) XV_CANARY("nothing to try: ENOENT");
-    if (t->state == track_state_bad && xv_fail_n == f0 && t->badness_reason == ETIMEDOUT) XV_CANARY("nothing left after a timeout");
-    if (t->state == track_state_bad && xv_fail_n == f0 + 1 && t->badness_reason == ECONNREFUSED && xv_conn_n == c0 + 1) XV_CANARY("last address refused");
-    if (t->state == track_state_bad && xv_fail_n == f0 + 1 && xv_conn_n == c0 && t->badness_reason == EADDRINUSE) XV_CANARY("bind failed on the last address");
+    /* (the track object made by is_fresh is not visible here: outcomes are told apart by the ghost log) */
+    if (xv_eff_n == e0) XV_CANARY("nothing to try");
+#if XV_TCN_I0 <= 30
+    if (xv_conn_n == c0 + 1 && xv_conn_rc == 0 && xv_fail_n == f0) XV_CANARY("first candidate connects at once");
+#endif
+#if XV_TCN_I0 == -1
+    if (xv_conn_rc == -1 && xv_conn_errno == EINPROGRESS && xv_fail_n == f0 + 2 && xv_disc_n == d0 + 1) XV_CANARY("in progress after two failed attempts (one of them at connect)");
+    if (xv_fail_n == f0 + 1 && xv_fail_errno == ECONNREFUSED && xv_conn_n == c0 + 1 && xv_conn_rc == -1 && xv_eff_n == e0 + 1) XV_CANARY("only address refused");
+    if (xv_fail_n == f0 + 3 && xv_conn_n == c0 && xv_fail_errno == EADDRINUSE && xv_kc.bind_calls == b0 + 3) XV_CANARY("bind failed on three addresses");
+    if (xv_fail_n == f0 + 32 && xv_conn_n == c0 + 32) XV_CANARY("all 32 addresses refuse");
+#endif
 }
